@@ -46,7 +46,7 @@ func runC12(c *core.Ctx) {
 	const models = "models"
 	c.Clause("D1", func() {
 		n := boundsObligations(c, "decoded-length-bounded", []string{models})
-		c.Floor("uses of decoded lengths in models", n, 4)
+		c.Floor("uses of decoded lengths in models", n, 2) // (4 today; 2 when the two reads share a helper)
 	})
 
 	c.Clause("D2", func() {
